@@ -32,7 +32,7 @@ def register(name, **kw):
 def _gen_key(D, cs):
     import hashlib
     h = hashlib.sha1()
-    for f in sorted(os.listdir(DEV)) + sorted(os.listdir(os.path.join(C.SPECS, "common"))):
+    for f in sorted(os.listdir(DEV)):
         if f.endswith(".tla") and ("Gen" in f or f in ("AclSem.tla",)):
             p = os.path.join(DEV, f)
             if os.path.exists(p):
